@@ -49,7 +49,7 @@ REQUIRED_THEOREMS = [
     "C10_userDict_nil", "C10_userDict_registered", "C10_userDict_untouched", "C10_userDict_unitary", "C10_userDict_Z",
     "C10_userDict_siteUs", "C10_userDict_siteUs_fast", "C10_nll_born_rbm_dict", "C10_nll_born_rbm_mixed_dict",
     "C10_nll_born_rbm_userDict", "C10_nll_born_rbm_mixed_userDict", "C10_kl_nonneg_rbm_userDict", "C10_kl_nonneg_mixed_rbm_userDict",
-    "C10_kl_formula_dense",
+    "C10_kl_formula_dense", "C10_kl_formula_dense_mixed", "C10_kl_self_zero_mixed_rbm", "C10_kl_self_zero_rbm_pos",
 ]
 EXTRA_TRUSTED = [
     "np.linalg.eigvals is external to the model (its result is an argument of fidelityMixed); the harness checks every "
@@ -169,6 +169,8 @@ def gen_udict(rng, exact=False):
         d = {k: EXACT_POOL[k] for k in rng.sample(sorted(EXACT_POOL), rng.choice([1, 2, 3]))}
         if rng.random() < 0.4:
             d[rng.choice("XY")] = EXACT_POOL[rng.choice("NVW")]
+        if rng.random() < 0.25:
+            d["Z"] = np.eye(2, dtype=complex)  # Z registered explicitly, as the identity (inside C10_userDict_Z's hypothesis)
         return {k: m2json(v) for k, v in d.items()}
     d = {}
     pool = {"H": S2 * np.array([[1, 1], [1, -1]], dtype=complex),
@@ -186,6 +188,8 @@ def gen_udict(rng, exact=False):
         d["Y"] = rand_unitary2(rng)
     elif r < 0.6:
         d["X"], d["Y"] = DICT["Y"], DICT["X"]
+    if rng.random() < 0.25:
+        d["Z"] = np.eye(2, dtype=complex)  # Z registered explicitly, as the identity (inside C10_userDict_Z's hypothesis)
     return {k: m2json(v) for k, v in d.items()}
 
 
@@ -1054,12 +1058,47 @@ def _gen_cases(ctx, thorough):
             samples = qc.all_states(n)
             yield {"op": "nll", "state": s, "samples": samples, "sample_bases": None, "perm": None}
             yield {"op": "nll", "state": s, "samples": samples, "sample_bases": [rng.choice(sel + ["Z" * n]) for _ in samples], "perm": None}
+            if kind != "pos":
+                # (x-packages) clamp-active probes under a user dictionary: large parameters, bases with registered letters
+                s = gen_state(rng, kind, n, 12.0)
+                s["udict"] = gen_udict(rng); s["udict_form"] = "create_dict/tensor"
+                selu = pick_bases(rng, n, False, alphabet="XYZ" + "".join(sorted(k for k in s["udict"] if k not in "XYZ")))[:3]
+                yield {"op": "kl", "state": s, "tclass": "random", "target": cjson(t), "form": "once", "bases": selu, "keys": None}
+                yield {"op": "kl", "state": s, "tclass": "random", "target": cjson(t), "form": "dict", "bases": None, "keys": selu[:2]}
+                yield {"op": "nll", "state": s, "samples": samples, "sample_bases": [rng.choice(selu + ["Z" * n]) for _ in samples], "perm": None}
             s = gen_state(rng, kind, n, 1.0)
             yield {"op": "kl", "state": s, "tclass": "random", "target": cjson(t), "form": "once", "bases": [], "keys": None, "malformed": True}
             yield {"op": "kl", "state": s, "tclass": "random", "target": cjson(t), "form": "dict", "bases": ["Z" * n, "X" * n], "keys": ["Z" * n], "malformed": True}
             yield {"op": "nll", "state": s, "samples": samples, "sample_bases": ["X" * n], "perm": None, "malformed": n > 0}
             yield {"op": "nll", "state": s, "samples": [], "sample_bases": [], "perm": None, "malformed": True}
             yield {"op": "nll", "state": s, "samples": [], "sample_bases": None, "perm": None, "malformed": True}
+
+
+def _gen_quick_n4(ctx):
+    """(x-packages) the quick tier stopped at n = 3: one n = 4 state per state type (and per dictionary variant) with the plain call of every
+    metric on every path"""
+    rng = ctx.rng
+    n, N = 4, 16
+    for kind, ud in (("pos", False), ("cplx", False), ("dens", False), ("cplx", True), ("dens", True)):
+        s = gen_state(rng, kind, n, rng.choice([0.3, 1.0]))
+        alphabet = "XYZ"
+        if ud:
+            s["udict"] = gen_udict(rng); s["udict_form"] = "create_dict/tensor"
+            alphabet = "XYZ" + "".join(sorted(k for k in s["udict"] if k not in "XYZ"))
+        sel = pick_bases(rng, n, False, alphabet=alphabet)
+        t = rand_cvec(rng, N) if kind != "dens" else rand_dm(rng, N)
+        short = rng.sample(sel, 2)
+        if not ud:
+            if kind != "dens":  # (the similarity-invariant aux point of the mixed fidelity, power traces up to k = 16, is left to the thorough tier)
+                yield {"op": "fidelity", "state": s, "tclass": "random", "target": cjson(t), "alpha": 0.7}
+            yield {"op": "kl", "state": s, "tclass": "random", "target": cjson(t), "form": "once", "bases": None, "keys": None}
+        yield {"op": "kl", "state": s, "tclass": "random", "target": cjson(t), "form": "once", "bases": short, "keys": None}
+        yield {"op": "kl", "state": s, "tclass": "random", "target": cjson(t), "form": "dict", "bases": None, "keys": short}
+        Ns = 6
+        samples = [[rng.randrange(2) for _ in range(n)] for _ in range(Ns)]
+        yield {"op": "nll", "state": s, "samples": samples, "sample_bases": [rng.choice(short + ["Z" * n]) for _ in range(Ns)], "perm": [5, 0, 3, 1, 4, 2]}
+        if not ud:
+            yield {"op": "nll", "state": s, "samples": samples, "sample_bases": None, "perm": None}
 
 
 PRELUDE_HOW = ("flip_spin", "sample_overwrite", "edit", "zero_", "fill_", "complement", "numpy_view", "copy_")
@@ -1156,7 +1195,7 @@ def dispatch(ctx, case):
 def gen_cases(ctx, thorough):
     """the cases of `_gen_cases`, each with the seed of its own stream of argument forms (drawn from the generator's rng, so a run is a
     function of VERIF_SEED and a stored case carries everything needed to hand over the same objects again)"""
-    for case in _gen_cases(ctx, thorough):
+    for case in itertools.chain(_gen_cases(ctx, thorough), () if thorough else _gen_quick_n4(ctx)):
         case["aseed"] = af.draw_aseed(ctx.rng)
         if case["state"].get("udict") and (case["op"] == "rejected" or (case["op"] == "fidelity" and (case.get("call") or case.get("prelude")))):
             continue  # fidelity never touches the dictionary: for the user-dictionary states only the plain fidelity calls are kept
